@@ -248,7 +248,9 @@ theorem shl_mk (s t : Ty) (x y : Int) : Num.shl ⟨s, x⟩ ⟨t, y⟩ = coerce2 
 theorem shr_mk (s t : Ty) (x y : Int) : Num.shr ⟨s, x⟩ ⟨t, y⟩ = coerce2 ⟨s, x⟩ ⟨t, y⟩ >>= fun r =>
     if r.1 = .py then (if r.2.2 < 0 then .error .value else .ok ⟨r.1, r.2.1 / 2 ^ r.2.2.toNat⟩)
     else if 0 ≤ r.2.2 ∧ r.2.2 < r.1.bits then .ok ⟨r.1, r.2.1 / 2 ^ r.2.2.toNat⟩
-    else .ok ⟨r.1, if r.2.1 < 0 then -1 else 0⟩ := rfl
+    else .ok ⟨r.1, if r.2.1 < 0 then -1 else 0⟩ := by
+  simp only [Num.shr, Int.shiftRight_eq_div_pow]
+  rfl
 theorem pow_mk (s t : Ty) (x y : Int) : Num.pow ⟨s, x⟩ ⟨t, y⟩ = coerce2 ⟨s, x⟩ ⟨t, y⟩ >>= fun r =>
     if r.2.2 < 0 then (if r.1 = .py then .error .unsupported else .error .value)
     else .ok ⟨r.1, wrap r.1 (r.2.1 ^ r.2.2.toNat)⟩ := rfl
